@@ -39,8 +39,24 @@ type S struct {
 }
 
 // New creates a collector and registers its flush with t.Cleanup.
+var (
+	regMu sync.Mutex
+	reg   []*S
+)
+
+func markAllFailed() {
+	regMu.Lock()
+	defer regMu.Unlock()
+	for _, s := range reg {
+		s.MarkFailed()
+	}
+}
+
 func New(id string, t testing.TB) *S {
 	s := &S{id: id, test: t.Name(), classes: map[string]int64{}, distinct: map[uint64]struct{}{}}
+	regMu.Lock()
+	reg = append(reg, s)
+	regMu.Unlock()
 	t.Cleanup(func() {
 		if t.Failed() {
 			s.mu.Lock()
@@ -212,7 +228,16 @@ func Seed() uint64 {
 
 // Check runs rapid.Check with the number of checks scaled by mult relative to
 // the -rapid.checks value given by the driver (minimum 1).
-func Check(t *testing.T, mult float64, prop func(*rapid.T)) {
+func Check(t *testing.T, mult float64, prop0 func(*rapid.T)) {
+	// Stop counting once a case failed: rapid re-runs the property while shrinking.
+	prop := func(rt *rapid.T) {
+		defer func() {
+			if rt.Failed() {
+				markAllFailed()
+			}
+		}()
+		prop0(rt)
+	}
 	f := flag.Lookup("rapid.checks")
 	if f == nil || mult == 1 {
 		rapid.Check(t, prop)
